@@ -31,6 +31,9 @@ type JApiCore struct {
 	// macro contains list of all project macros.
 	macro map[string]*directive.Directive
 
+	// expandingMacros a "set" of macros which are being expanded by PASTE right now.
+	expandingMacros map[string]struct{}
+
 	// directiveFunctions map between available directives and function which
 	// should be used for processing.
 	directiveFunctions map[directive.Enumeration]func(*directive.Directive) *jerr.JApiError
@@ -116,6 +119,7 @@ func NewJApiCore(file *fs.File, oo ...Option) *JApiCore {
 		similarPaths:           make(map[string]string, 20),
 		rawPathVariables:       make([]rawPathVariable, 0, 40),
 		macro:                  make(map[string]*directive.Directive, 20),
+		expandingMacros:        map[string]struct{}{},
 		scannersStack:          &scanner.Stack{},
 		rules:                  map[string]jschema.Rule{},
 	}
